@@ -462,6 +462,34 @@ func (r *vfFilterRig) abortedDrag(work string) bool {
 	return true
 }
 
+// nearDrag: input that starts with existing local paths but is not *entirely* a list of them (a short tail
+// follows) is ordinary typing: it must reach the server unchanged and nothing may be injected afterwards.
+func (r *vfFilterRig) nearDrag(work string, rr *vfRand) bool {
+	c := r.c
+	plain := filepath.Join(work, "neardrag.bin")
+	spaced := filepath.Join(work, "near drag.bin")
+	os.WriteFile(plain, []byte("x"), 0644)
+	os.WriteFile(spaced, []byte("x"), 0644)
+	forms := []string{plain + " ", "'" + spaced + "' ", plain + " '" + spaced + "' "}
+	tails := []string{"x ", "ab ", "x", "-l ", "xyz ", "\r", "| ", "~ "}
+	for n := 0; n < 3; n++ {
+		in := forms[rr.Intn(len(forms))] + tails[rr.Intn(len(tails))]
+		i0 := r.siSink.Len()
+		r.clientIn.WriteAtomic([]byte(in))
+		for dl := time.Now().Add(3 * time.Second); r.siSink.Len()-i0 < len(in) && time.Now().Before(dl); {
+			time.Sleep(2 * time.Millisecond)
+		}
+		time.Sleep(700 * time.Millisecond) // a drag wrongly taken as pending would fire by now
+		got := append([]byte(nil), r.siSink.Bytes()[i0:]...)
+		if !bytes.Equal(got, []byte(in)) {
+			c.Viol("c05-input-not-transparent:near-drag", "typed input %q (existing paths followed by other text) reached the server as %q", in, vfHead(got, 120))
+			return false
+		}
+	}
+	c.Obs("history_near-drag", 1)
+	return true
+}
+
 // firedDrag: a drag of an existing path that the user does not cancel makes the filter interrupt the
 // remote shell and type the upload command (the documented exception).  The remote has no trz: its
 // echo comes merged with the error text in one chunk (or, variant, as a chunk of its own, which the
@@ -582,6 +610,13 @@ func TestVF_C05(t *testing.T) {
 						return
 					}
 					if !rig.probe("after-aborted-drag", vfOutChunks(r, opts, 6), vfInChunks(r, 5)) {
+						c.Replay(map[string]interface{}{"history": hist, "opts": o})
+						return
+					}
+				}
+				if opts.DetectDragFile && (i+k)%4 == 2 {
+					hist = append(hist, "near-drag")
+					if !rig.nearDrag(c.Dir, r) {
 						c.Replay(map[string]interface{}{"history": hist, "opts": o})
 						return
 					}
